@@ -128,6 +128,26 @@ func runC05(c *Ctx) {
 			}
 		})
 	}
+	// ... or functions of that signature taken as values (find := findShortcut; ...; find(pattern))
+	for _, gf := range groupFuncs(c.P, lsRoots...) {
+		eachInstr(gf, func(_ *ssa.BasicBlock, in ssa.Instruction) {
+			for _, op := range in.Operands(nil) {
+				if op == nil || *op == nil {
+					continue
+				}
+				fv, ok := (*op).(*ssa.Function)
+				if !ok || fv.Signature.Recv() != nil || !c.P.IsLibFunc(fv) || c.P.IsNewHelper(fv) || fv.Signature.Params().Len() != 1 || fv.Signature.Results().Len() != 1 {
+					continue
+				}
+				if ci, isCall := in.(ssa.CallInstruction); isCall && ci.Common().StaticCallee() == fv {
+					continue
+				}
+				if typeStr(fv.Signature.Params().At(0).Type()) == "string" && typeStr(fv.Signature.Results().At(0).Type()) == "string" {
+					extractors = append(extractors, fv)
+				}
+			}
+		})
+	}
 	var maskX, regexX *ssa.Function
 	for _, x := range extractors {
 		usesRegexp := false
